@@ -29,6 +29,48 @@ WITNESSES = {
         ('cmd', 2, ('store', [2], False, 'add', [3], False)),
         ('cmd', 1, ('fetch', [(1, '*')], True, False, False)),
     ]),
+    # seeded/C01-4 (no defect on the current tree): after a hidden expunge (session 1 learns
+    # during a non-UID FETCH that session 2 expunged its first message) COPY/MOVE by sequence
+    # number must act on the messages the client holds under those numbers
+    'copy_after_hidden_expunge': (2, [
+        ('cmd', 1, ('select', 1, False)),
+        ('cmd', 1, ('fetch', [(1, '*')], False, True, False)),
+        ('cmd', 2, ('select', 1, False)),
+        ('cmd', 2, ('store', [1], False, 'add', [2], True)),
+        ('cmd', 2, ('expunge', None)),
+        ('cmd', 1, ('fetch', [(1, '*')], False, False, False)),
+        ('cmd', 1, ('copy', [2], False, 2, None)),
+        ('cmd', 1, ('noop',)),
+    ]),
+    'move_after_hidden_expunge': (2, [
+        ('cmd', 1, ('select', 1, False)),
+        ('cmd', 1, ('fetch', [(1, '*')], False, True, False)),
+        ('cmd', 2, ('select', 1, False)),
+        ('cmd', 2, ('store', [2], False, 'add', [2], True)),
+        ('cmd', 2, ('expunge', None)),
+        ('cmd', 1, ('search', False, None, [])),
+        ('cmd', 1, ('move', [(3, '*')], False, 2, None)),
+        ('cmd', 1, ('noop',)),
+    ]),
+}
+
+
+# replayed on the maildir backend only
+MAILDIR_WITNESSES = {
+    # seeded/C02-3 (no defect on the current tree): a file delivered by an MDA (no info part in
+    # its name, never flagged) must survive the housekeeping of CHECK with its UID
+    'external_delivery_then_check': (2, [
+        ('cmd', 1, ('select', 1, False)),
+        ('cmd', 1, ('fetch', [(1, '*')], False, True, False)),
+        ('cmd', 2, ('select', 1, False)),
+        ('cmd', 2, ('fetch', [(1, '*')], False, True, False)),
+        ('deliver', 1, [], True, 900),
+        ('cmd', 1, ('noop',)),
+        ('deliver', 1, [], False, 901),
+        ('cmd', 2, ('check',)),
+        ('cmd', 1, ('check',)),
+        ('cmd', 2, ('fetch', [(1, '*')], False, True, False)),
+    ]),
 }
 
 
@@ -38,7 +80,7 @@ def _profile(rng):
     boxes = (1,) if r < 0.7 else (1, 2)
     ro = (3,) if rng.random() < 0.25 else ()
     return dict(nsess=nsess, nsteps=rng.randint(8, 25), boxes=boxes, readonly_sessions=ro,
-                checkpoint_every=rng.choice([0, 5, 8]), group=rng.choice([0.0, 0.0, 0.1]))
+                checkpoint_every=rng.choice([0, 5, 8]), group=rng.choice([0.0, 0.1, 0.15]))
 
 
 def section_random(ctx, clauses) -> None:
@@ -143,8 +185,9 @@ def section_maildir(ctx, clauses, witnesses=None):
             group=rng.choice([0.0, 0.15]), flipflop=rng.choice([0.0, 0.4])))
         book(trace, mon, nsess, 'maildir-random')
     nwit = 0
-    for name, (nsess, labels) in (witnesses or {}).items():
-        if any(l[0] != 'cmd' or l[2][0] == 'idle' for l in labels):
+    for name, (nsess, labels) in {**(witnesses or {}), **MAILDIR_WITNESSES}.items():
+        if any(l[0] not in ('cmd', 'deliver') or (l[0] == 'cmd' and l[2][0] == 'idle')
+               or (l[0] == 'deliver' and l[2]) for l in labels):
             continue
         trace, mon = SC.run_sync(SM.monitored_maildir_fixed(labels, nsess=nsess))
         book(trace, mon, nsess, 'maildir-witness:' + name)
@@ -173,6 +216,51 @@ def section_maildir(ctx, clauses, witnesses=None):
     return evals
 
 
+def section_windows(ctx, clauses) -> None:
+    """Instrumented await points (harness/store_windows.py): session 1's SELECT, EXAMINE,
+    NOOP, CHECK, FETCH or STORE is held right after `get_mailbox`, after `snapshot`, before
+    or after `update_selected` while session 2 appends / expunges / flags / moves; monitors
+    only (these interleavings are outside the atomic-step model: the asyncio dict backend
+    never suspends there, the maildir thread pool and redis do)."""
+    from .. import store_windows as W
+    n = reached = 0
+    W.install()
+    try:
+        for a in W.A_COMMANDS:
+            for point in W.POINTS:
+                if point[0] == 'snapshot' and a not in ('select', 'examine'):
+                    continue
+                for b in W.B_COMMANDS:
+                    for pre in ((True, False) if a in ('select', 'examine') else (True,)):
+                        trace, mon, hit = SC.run_sync(W.select_window_trace(a, point, b, preselected=pre))
+                        n += 1
+                        reached += bool(hit)
+                        labels = trace.labels()
+                        for f in mon.failures:
+                            if f['clause'] in clauses:
+                                ctx.failure(f['clause'], '[window] ' + f['what'],
+                                            {'window': [a, list(point), b, pre],
+                                             'labels': SC.labels_repr(labels[:f['step'] + 1]),
+                                             'session': f['session'], 'step': f['step'],
+                                             'generator': 'await-window'},
+                                            {**f['obs'], 'window': f'{a} held {point[1]} {point[0]}, '
+                                                                   f'other session: {b}'})
+                        for p in trace.problems:
+                            if p['kind'] != 'atomicity':
+                                ctx.disagreement('window:' + p['kind'],
+                                                 {**p, 'window': [a, list(point), b, pre]})
+                        for lab, resp, _ in trace.steps:
+                            ctx.count(('window', a, point, b, pre, repr(lab), repr(resp)),
+                                      nontrivial=any(r[0] in ('expunge', 'exists', 'fetch') for r in resp))
+    finally:
+        W.uninstall()
+    ctx.extra['await_windows'] = {'traces': n, 'window_reached': reached,
+                                  'commands': sorted(W.A_COMMANDS), 'points': [list(p) for p in W.POINTS],
+                                  'other_session': sorted(W.B_COMMANDS)}
+    if reached < n:
+        ctx.broken.append(f'await windows: {n - reached} of {n} windows were not reached')
+
+
 def section_witnesses(ctx, clauses, witnesses) -> None:
     traces = []
     for name, (nsess, labels) in witnesses.items():
@@ -199,6 +287,10 @@ ASSUMPTIONS = [
     'reduced volume); redis not at all',
     'session flags other than \\Recent are not defined by the dict backend (measured: '
     'SessionFlags._flags stays empty)',
+    'await points inside a command (get_mailbox, snapshot, update_selected, append) that the asyncio '
+    'dict backend never suspends at are explored by an instrumented family (one held command, another '
+    'session running whole commands inside the window) under the monitors only; the theorems assume '
+    'atomic commands',
 ]
 
 
@@ -210,6 +302,7 @@ def run(ctx) -> None:
     evals = [section_witnesses(ctx, clauses, WITNESSES), section_random(ctx, clauses)]
     evals += section_exhaustive(ctx, clauses)
     evals += section_maildir(ctx, clauses, WITNESSES)
+    section_windows(ctx, clauses)
     for ev in evals:
         ev.finish()
 
@@ -217,7 +310,24 @@ def run(ctx) -> None:
 def replay(ctx, obj) -> int:
     labels = SC.labels_parse(obj['labels'])
     nsess = obj.get('nsess') or max([l[1] for l in labels if l[0] in ('cmd', 'wake', 'done')] + [1])
-    if obj.get('backend') == 'maildir':
+    if obj.get('window'):
+        from .. import store_windows as W
+        a, point, b, pre = obj['window']
+        W.install()
+        try:
+            trace, mon, _hit = SC.run_sync(W.select_window_trace(a, tuple(point), b, preselected=pre))
+        finally:
+            W.uninstall()
+    elif obj.get('failed_append'):
+        from .. import store_windows as W
+        n, k, cmds, asel = obj['failed_append']
+        W.install()
+        try:
+            trace, mon, _hit = SC.run_sync(W.failed_append_trace(
+                n, k, SC.labels_parse(cmds), appender_selected=asel))
+        finally:
+            W.uninstall()
+    elif obj.get('backend') == 'maildir':
         from .. import store_maildir as SM
         trace, mon = SC.run_sync(SM.monitored_maildir_fixed(labels, nsess=nsess))
     else:
